@@ -15,7 +15,11 @@ tree (Gen.MsgpSites) has that shape (`Model.MsgpSite.siteOK`).
                            a bound, `allocbound=-`: n ≤ 2·(2³²−1), what a 32-bit header doubled by map flattening can announce —
                            NOT related to the input length: this is why exemptions must stay off the network paths); for a
                            byte string / string the copy is n bytes with n ≤ the input still left and n ≤ the declared bound;
-  * `dec_bounded`          see below (`NoDupFields`);  `dup_field_exceeds_bound` the counter-example the code has;
+  * `dec_bounded`          a successful decode into a fresh object whose run never decoded a struct field twice (`NoDupFields`:
+                           no ghost `.dup` in the log, i.e. the input names no field of any struct twice) yields an object in
+                           which EVERY string, byte string, slice and map, at every path, is within its declared bound (`fits`);
+                           `dup_field_exceeds_bound`: without `NoDupFields` the statement is false for maps, as in the real code
+                           (KNOWN FINDING duplicate-map-field-accumulates);
   * error totality         `empty_rejected`, `oversized_slice_rejected`, `oversized_map_rejected`, `oversized_bytes_rejected`,
                            `oversized_str_rejected`, `wrong_type_rejected`, `unknown_key_rejected`, `depth_exhausted`,
                            `too_many_array_fields_rejected`: each malformed class yields an `Err` with nothing allocated by the
@@ -24,6 +28,7 @@ tree (Gen.MsgpSites) has that shape (`Model.MsgpSite.siteOK`).
 -/
 import AlgoVerif.Model.BoundedDecoder
 import AlgoVerif.Lemmas.BoundedDecoder
+import AlgoVerif.Lemmas.BoundedDecoderFit
 import AlgoVerif.Model.MsgpSite
 import AlgoVerif.Gen.MsgpSitesOk
 namespace AlgoVerif.Props.C41
@@ -221,6 +226,19 @@ def tySpt : BTy := .named (.struct [([0x73, 0x70, 0x74], false, .map (some 1) (.
 def mapLens : Log × Except Err (Val × Bytes) → Option (List Nat)
   | (_, .ok (.struct vs, _)) => some (vs.map fun v => match v with | .map kvs => kvs.length | _ => 0)
   | _ => none
+
+/-- the run never decoded a struct field twice (the ghost `.dup` annotation of the map-form loop never fired) -/
+def NoDupFields (l : Log) : Prop := noDup l = true
+
+/-- a successful decode into a fresh object, on an input that names no struct field twice, builds no collection larger
+than its declared bound — strings, byte strings, slices and maps, at every path -/
+theorem dec_bounded (ty : BTy) (d : Nat) (bs : Bytes) (l : Log) (v : Val) (r : Bytes)
+    (h : BoundedDecoder.dec ty d (zero ty) bs = (l, .ok (v, r))) (hnd : NoDupFields l) : fits ty v = true :=
+  dec_fit ty d bs l v r h hnd
+
+/-- the hypotheses are met: {"spt":{0:{}}} decodes, without a repeated key, into a map of one entry (bound 1) -/
+example : mapLens (decodeRoot tySpt [0x81, 0xa3, 0x73, 0x70, 0x74, 0x81, 0x00, 0x80]) = some [1] ∧
+    noDup (decodeRoot tySpt [0x81, 0xa3, 0x73, 0x70, 0x74, 0x81, 0x00, 0x80]).1 = true := by decide
 
 /-- KNOWN FINDING (generated-code shape, real code: `protocol.Decode(82a3737074810080a3737074810180, &BlockHeader{})`):
 a map-typed field that the input names twice keeps the existing map and inserts again — the decoded map has 2 entries
